@@ -41,7 +41,7 @@ import shutil
 import sys
 import tempfile
 
-from qstatic.effects import (EffectsEngine, rng_sites, module_rng_sites, time_taint, is_static, is_classmethod, Resolver,
+from qstatic.effects import (EffectsEngine, rng_sites, module_rng_sites, resolve_seed_helper, time_taint, is_static, is_classmethod, Resolver,
                              LIB_VIEW, LIB_INPLACE, METHOD_MUTATES, METHOD_VIEW)
 from qstatic.src import AnalysisError, Program
 
@@ -310,6 +310,8 @@ def check_d3(ctx, prog, eng, scope):
     for _once in (0,):
         for fi in eng.universe:
             for s in rng_sites(prog, fi):
+                if s.ok is None:         # np.random.seed in a helper: judged through its call sites
+                    s.ok, s.why = resolve_seed_helper(eng, eng.universe, fi, s)
                 n += 1
                 n_seed += s.kind == "seed"
                 n_ctor += s.kind == "ctor"
@@ -756,7 +758,53 @@ VARIANTS = [
     ("ndarray in-place method on a view of the argument", "quatica/tensor.py",
      r"(def tensor_frobenius_norm\(T: np\.ndarray\) -> float:\n)", "\\1    np.ascontiguousarray(T).ravel().sort()\n",
      ("F", R2, "tensor_frobenius_norm", "parameter 'T' written: in-place method .sort()")),
+    ("seed guard broken: seed call moved out of the guard", "quatica/solver.py", r"(        self\.preconditioner_rank = max\(0, preconditioner_rank\)\n        self\.seed = seed\n)        if seed is not None:\n            np\.random\.seed\(seed\)\n",
+     "\\1        if seed is not None:\n            pass\n        np.random.seed(seed)\n",
+     ("F", R3, "CGNEQSolver.__init__", "np.random.seed")),
+    ("seed guard broken: inverted test", "quatica/solver.py", r"(        self\.preconditioner_rank = max\(0, preconditioner_rank\)\n        self\.seed = seed\n)        if seed is not None:\n            np\.random\.seed\(seed\)\n",
+     "\\1        if seed is None:\n            np.random.seed(seed)\n",
+     ("F", R3, "CGNEQSolver.__init__", "np.random.seed")),
+    ("seed guard broken: seed re-bound between the test and the call", "quatica/solver.py", r"(        self\.preconditioner_rank = max\(0, preconditioner_rank\)\n        self\.seed = seed\n)        if seed is not None:\n            np\.random\.seed\(seed\)\n",
+     "\\1        if seed is not None:\n            seed = self.preconditioner_rank or None\n            np.random.seed(seed)\n",
+     ("F", R3, "CGNEQSolver.__init__", "np.random.seed")),
+    ("seed guard broken: or instead of and", "quatica/solver.py", r"(        self\.preconditioner_rank = max\(0, preconditioner_rank\)\n        self\.seed = seed\n)        if seed is not None:\n            np\.random\.seed\(seed\)\n",
+     "\\1        seed is not None or np.random.seed(seed)\n",
+     ("F", R3, "CGNEQSolver.__init__", "np.random.seed")),
+    ("seed guard broken: unguarded helper called without a guard", "quatica/solver.py",
+     [r"class CGNEQSolver:\n", r"(        self\.preconditioner_rank = max\(0, preconditioner_rank\)\n        self\.seed = seed\n)        if seed is not None:\n            np\.random\.seed\(seed\)\n"],
+     ["def _seed_global(value):\n    np.random.seed(value)\n\n\nclass CGNEQSolver:\n",
+      "\\1        _seed_global(seed)\n"],
+     ("F", R3, "_seed_global", "np.random.seed")),
+    ("seed guard broken: guarded helper also called from compute", "quatica/solver.py",
+     [r"class CGNEQSolver:\n", r"(        self\.preconditioner_rank = max\(0, preconditioner_rank\)\n        self\.seed = seed\n)        if seed is not None:\n            np\.random\.seed\(seed\)\n", r"(        I_n = quat_eye\(n\)\n        Inorm = )"],
+     ["def _seed_global(seed):\n    if seed is None:\n        return\n    np.random.seed(seed)\n\n\nclass CGNEQSolver:\n",
+      "\\1        _seed_global(seed)\n", "        _seed_global(self.seed)\n\\1"],
+     ("F", R3, "_seed_global", "np.random.seed")),
     # ---- behaviour-preserving: must stay silent
+    ("seed guard spelled as: if not (seed is None)", "quatica/solver.py", r"(        self\.preconditioner_rank = max\(0, preconditioner_rank\)\n        self\.seed = seed\n)        if seed is not None:\n            np\.random\.seed\(seed\)\n",
+     "\\1        if not (seed is None):\n            np.random.seed(seed)\n", ("S",)),
+    ("seed guard spelled as: if seed is None: pass / else", "quatica/solver.py", r"(        self\.preconditioner_rank = max\(0, preconditioner_rank\)\n        self\.seed = seed\n)        if seed is not None:\n            np\.random\.seed\(seed\)\n",
+     "\\1        if seed is None:\n            pass\n        else:\n            np.random.seed(seed)\n", ("S",)),
+    ("seed guard spelled as: early return when None", "quatica/solver.py", r"(        self\.preconditioner_rank = max\(0, preconditioner_rank\)\n        self\.seed = seed\n)        if seed is not None:\n            np\.random\.seed\(seed\)\n",
+     "\\1        if seed is None:\n            return\n        np.random.seed(seed)\n", ("S",)),
+    ("seed guard spelled as: conditional expression", "quatica/solver.py", r"(        self\.preconditioner_rank = max\(0, preconditioner_rank\)\n        self\.seed = seed\n)        if seed is not None:\n            np\.random\.seed\(seed\)\n",
+     "\\1        np.random.seed(seed) if seed is not None else None\n", ("S",)),
+    ("seed guard spelled as: short-circuit and", "quatica/solver.py", r"(        self\.preconditioner_rank = max\(0, preconditioner_rank\)\n        self\.seed = seed\n)        if seed is not None:\n            np\.random\.seed\(seed\)\n",
+     "\\1        seed is not None and np.random.seed(seed)\n", ("S",)),
+    ("seed guard spelled as: test and call through the stored attribute", "quatica/solver.py", r"(        self\.preconditioner_rank = max\(0, preconditioner_rank\)\n        self\.seed = seed\n)        if seed is not None:\n            np\.random\.seed\(seed\)\n",
+     "\\1        if self.seed is not None:\n            np.random.seed(self.seed)\n", ("S",)),
+    ("seed guard spelled as: test on the argument, call with the attribute just assigned from it", "quatica/solver.py", r"(        self\.preconditioner_rank = max\(0, preconditioner_rank\)\n        self\.seed = seed\n)        if seed is not None:\n            np\.random\.seed\(seed\)\n",
+     "\\1        if seed is not None:\n            np.random.seed(self.seed)\n", ("S",)),
+    ("seed guard spelled as: isinstance test", "quatica/solver.py", r"(        self\.preconditioner_rank = max\(0, preconditioner_rank\)\n        self\.seed = seed\n)        if seed is not None:\n            np\.random\.seed\(seed\)\n",
+     "\\1        if isinstance(seed, int):\n            np.random.seed(seed)\n", ("S",)),
+    ("seed guard inside a private helper called from the constructor", "quatica/solver.py",
+     [r"class CGNEQSolver:\n", r"(        self\.preconditioner_rank = max\(0, preconditioner_rank\)\n        self\.seed = seed\n)        if seed is not None:\n            np\.random\.seed\(seed\)\n"],
+     ["def _seed_global(seed):\n    if seed is None:\n        return\n    np.random.seed(seed)\n\n\nclass CGNEQSolver:\n",
+      "\\1        _seed_global(seed)\n"], ("S",)),
+    ("unguarded private helper, every call guarded in the constructor", "quatica/solver.py",
+     [r"class CGNEQSolver:\n", r"(        self\.preconditioner_rank = max\(0, preconditioner_rank\)\n        self\.seed = seed\n)        if seed is not None:\n            np\.random\.seed\(seed\)\n"],
+     ["def _seed_global(value):\n    np.random.seed(value)\n\n\nclass CGNEQSolver:\n",
+      "\\1        if seed is not None:\n            _seed_global(seed)\n"], ("S",)),
     ("sparse clean-up on copies of the planes", "quatica/utils.py",
      [r"        self\.real = real\.tocsr\(\)\n", r"        self\.i = i\.tocsr\(\)\n", r"        self\.j = j\.tocsr\(\)\n",
       r"        self\.k = k\.tocsr\(\)\n"],
